@@ -194,13 +194,15 @@ type Sched struct {
 	// set when the root has finished while other tasks were still unwinding (aborted runs)
 	rootDone   chan cmd
 	rootDoneAt time.Time
-	cur        *TaskInfo
-	live       int
-	policy     Policy
-	pctCh      []int
-	victim     int
-	last       int
-	stick      int
+	// hook calls received from goroutines that belong to no task of this simulation
+	Foreign int
+	cur     *TaskInfo
+	live    int
+	policy  Policy
+	pctCh   []int
+	victim  int
+	last    int
+	stick   int
 
 	aborting bool
 	ioCount  map[string]int
@@ -492,6 +494,8 @@ func (s *Sched) violate(class, detail string) {
 }
 
 // Fault counts a fault that actually fired.
+func (s *Sched) knownWG(w any) bool { _, ok := s.wgs[w]; return ok }
+
 func (s *Sched) Fault(kind string) { s.Faults[kind]++ }
 
 // Probe counts a rare condition that was reached.
@@ -534,6 +538,16 @@ func (s *Sched) loop() {
 			if s.aborting {
 				s.release(t, cmd{})
 			}
+			continue
+		}
+
+		if (m.kind == mExit && len(s.byKey[m.key]) == 0) || (m.kind == mWGDone && !s.knownWG(m.key)) {
+			// the last hook calls of a goroutine that belongs to no task of this simulation: a block
+			// task of an earlier, unsimulated run of the library in this process (reference runs)
+			// that was descheduled between its Done and its exit hook. Its key (the address of its
+			// own result slot, which it still references) cannot be a key of this simulation.
+			s.Foreign++
+			m.reply <- cmd{}
 			continue
 		}
 
